@@ -61,7 +61,7 @@ PROPS = {
         'extra': ['twin'],
     },
     'C02': {
-        'theorems': 'Properties/C02', 'scenarios': ['flow-timeout-giveup', 'flow-rollover-coincide'], 'obligation_files': ['Obligations/ObShape'],
+        'theorems': 'Properties/C02', 'scenarios': ['flow-timeout-giveup', 'flow-rollover-coincide', 'flow-renew2-migrate'], 'obligation_files': ['Obligations/ObShape'],
         'profiles': [SAO, SAOLONG, NODE, SELECT, STAKING],
         'projection': ['outcome-class'], 'monitors': ['live.'], 'families': ALL_FAM,
         'halt_is_violation': True, 'crash_is_witness': True,
